@@ -34,6 +34,7 @@ def check(ctx, cfg):
     r5(ctx, cfg)
     r6(ctx, cfg)
     r_overlay(ctx, cfg)
+    r8(ctx, cfg)
 
 
 def r_overlay(ctx, cfg):
@@ -49,6 +50,32 @@ def r5(ctx, cfg):
     appended at the back of the loaded queue and saved), under C16's id"""
     from rules import C14
     C14.r4(ctx, cfg, R="C16.R5", parts=("Undelegate",))
+
+
+def r8(ctx, cfg):
+    """"leaves ... already accrued rewards unchanged": a delegator's accrued rewards live in the same `STAKES` entry as the stake
+    (`Shares { stake, rewards }`, and `update_rewards` has just credited them), so `slash` must not remove an entry unless its
+    rewards are known to be nothing.  (Stated under C16 only.)"""
+    F, P = cfg.facts, cfg.prov
+    R = "C16.R8"
+    key = SK + "slash"
+    f = ctx.need_fn(R, key)
+    if f is None:
+        return
+    n = 0
+    for g in F.lexical(key):
+        for b, t in g.calls():
+            if not (t["callee"]["key"] == "cw_storage_plus::Map::remove" and peel(P.call_args(g, t, b)[0]) == STAKES):
+                continue
+            conds = q.conditions_at(P, F, g, b)
+            spared = any(c[0] == "bool" and c[1][0] == "is_zero" and c[1][2] is True and
+                         contains(c[1][1][0], lambda x: x[0] == "field" and x[2] == "rewards") for e, c in conds)
+            ctx.ob(R, key, "accrued-rewards-survive:remove#%d" % n, spared,
+                   "slash removes a delegator's STAKES entry (line %d) together with the rewards accrued on it: after delegating 100 for a year (9 accrued) "
+                   "a slash by 100 %% - or any slash that leaves less than one token of total stake - makes the 9 vanish, WithdrawDelegatorReward fails" % t["line"],
+                   fn=g, line=t["line"], sample="removed only when rewards.is_zero()")
+            n += 1
+    ctx.floor(R, "STAKES.remove sites in slash", n, 1)
 
 
 def r1(ctx, cfg):
